@@ -243,6 +243,8 @@ def spec_conv2d(x, w, p0, p1, s0, s1, d0, d1):
         return None
     OH, OW = (H + 2 * p0 - eh) // s0 + 1, (Wd + 2 * p1 - ew) // s1 + 1
     B = max(x.batch, w.batch)
+    if OH * OW * OC * B > 400:
+        return "big"
     out = []
     for n in range(B):
         xs, ws = x.sample(n).vals, w.sample(n).vals
@@ -267,6 +269,8 @@ def spec_max_pool2d(x, w0, w1, p0, p1, s0, s1):
     if len(x.dims) > 3 or min(w0, w1, s0, s1) == 0 or H + 2 * p0 < w0 or Wd + 2 * p1 < w1:
         return None
     OH, OW = (H + 2 * p0 - w0) // s0 + 1, (Wd + 2 * p1 - w1) // s1 + 1
+    if OH * OW * C * x.batch > 400:
+        return "big"
     out = []
     for n in range(x.batch):
         xs = x.sample(n).vals
@@ -656,7 +660,7 @@ class Gen(object):
             bad = True
         args = "%d %d %d %d %d %d" % (p0, p1, s0, s1, d0, d1)
         sp = None if bad else spec_conv2d(x, w, p0, p1, s0, s1, d0, d1)
-        if sp is not None and len(sp.vals) > 400:
+        if sp == "big":
             return
         By = max(bx, bw)
         if rng.random() < 0.55 or sp is None or boundary:
@@ -702,7 +706,7 @@ class Gen(object):
             bad = True
         args = "%d %d %d %d %d %d" % (w0, w1, p0, p1, s0, s1)
         sp = None if bad else spec_max_pool2d(x, w0, w1, p0, p1, s0, s1)
-        if sp is not None and len(sp.vals) > 400:
+        if sp == "big":
             return
         if rng.random() < 0.5 or sp is None or boundary:
             pair = self.emit("max_pool2d_fw %s %s" % (x.tok(), args), "exact", "fw", spec=sp)
@@ -820,7 +824,7 @@ def streams(rng, tier):
                     except Exception:
                         pass
                 g.lines.append(l)
-    n = 260 if tier == "quick" else 6000
+    n = 600 if tier == "quick" else 8000
     table = [(g.unary, 5), (g.const, 5), (g.pown, 2), (g.scalar, 3), (g.binary, 5), (g.matmul, 3), (g.conv2d, 3),
              (g.pool, 3), (g.logsumexp, 1), (g.inplace, 2)]
     fns = [f for f, wgt in table for _ in range(wgt)]
